@@ -47,6 +47,16 @@ MANUAL = [
     (r"server/src/user\.rs:(60|164|285):", ("outside", "input validation of empty names/passwords is not part of C17")),
     (r"server/src/user\.rs:305:", ("outside", "the rename pre-check is a courtesy: uniqueness is enforced by the unique index (C17.W-shared), the failed replace_one is answered before anything else is written (C17.P-login, C17.P-delete)")),
     (r"server/src/user\.rs:353:", ("outside", "`temp` in the reply of update_user is informational; what is stored is the hashed password (C17.F-cred)")),
+    (r"lib/src/nogoods\.rs:183:", ("outside", "Display of the store (bucket order of a debug print)")),
+    (r"lib/src/parser\.rs:(195|208):terminated->preceded", ("equivalent", "the combinator's value is discarded; the same input is consumed")),
+    (r"lib/src/obdd/vectorize\.rs:13:", ("gap-closed", "C06.A-serde vectorize.serialize-whole-map (added)")),
+    (r"bin/src/main\.rs:282:", ("outside", "the --counter branch of the biodivine arm only logs that counting is unsupported there")),
+    (r"bin/src/main\.rs:295:", ("gap-closed", "C10.P-cli sort-under-own-flag (added)")),
+    (r"server/src/adf\.rs:126:", ("gap-closed", "C14.A-dto exhaustive conversions (added)")),
+    (r"server/src/double_labeled_graph\.rs:85:", ("gap-closed", "C16.F-graph no-element-dropped (added)")),
+    (r"server/src/user\.rs:(48|129|215|253|321):find_one", ("gap-closed", "C17.F-userfilter (added)")),
+    (r"server/src/adf\.rs:(256|313|364):|server/src/user\.rs:52:", ("outside", "existence pre-checks / default-name generation: uniqueness of account names is enforced by the unique index, problem names are per user")),
+    (r"server/src/user\.rs:(226|259):", ("outside", "logout courtesy for temporary users / informational `temp` flag of a reply")),
     (r"lib/src/nogoods\.rs:63:", ("equivalent", "try_from_pair_iter: flag initial value; an empty pair iterator cannot occur behind filter_map(conclude) of a non-empty bucket (oracle passes)")),
 ]
 
